@@ -39,7 +39,54 @@ type Eng struct {
 	ghosts       map[string]*ghostFieldInfo
 	funcIndex    map[string]*ssa.Function
 	globalInfo   map[*ssa.Global]*globalFact
+	curProp      string
 }
+
+// transitionWriters lists the functions of a transition's package that store to the field (so that every
+// write is checked, also in functions nobody annotated).
+func (e *Eng) transitionWriters(ft *FieldTransition) []*ssa.Function {
+	var out []*ssa.Function
+	for name, fn := range e.funcIndex {
+		_ = name
+		pk := ""
+		if fn.Pkg != nil {
+			pk = fn.Pkg.Pkg.Path()
+		} else if fn.Parent() != nil && fn.Parent().Pkg != nil {
+			pk = fn.Parent().Pkg.Pkg.Path()
+		}
+		if pk != ft.Pkg || fn.Synthetic != "" {
+			continue
+		}
+		found := false
+		for _, b := range fn.Blocks {
+			for _, in := range b.Instrs {
+				var addr ssa.Value
+				switch x := in.(type) {
+				case *ssa.Store:
+					addr = x.Addr
+				case *ssa.Call:
+					if f := x.Common().StaticCallee(); f != nil && f.Pkg != nil && f.Pkg.Pkg.Path() == "sync/atomic" && len(x.Common().Args) > 0 {
+						addr = x.Common().Args[0]
+					}
+				}
+				if fa, ok := addr.(*ssa.FieldAddr); ok {
+					st := fa.X.Type().Underlying().(*types.Pointer).Elem()
+					if nt := namedOf(st); nt != nil && nt.Obj().Name() == ft.Type {
+						if s2, ok := st.Underlying().(*types.Struct); ok && s2.Field(fa.Field).Name() == ft.Field {
+							found = true
+						}
+					}
+				}
+			}
+		}
+		if found {
+			out = append(out, fn)
+		}
+	}
+	sort.Slice(out, func(i, j int) bool { return out[i].String() < out[j].String() })
+	return out
+}
+
 
 // globalFact: what is known about a package-level variable that is only ever assigned by its package's
 // initialiser (checked over the whole loaded program).
